@@ -1098,6 +1098,7 @@ static int ll_main(const argmap& a)
     std::vector<std::string> herr_list;
     std::set<std::string>    classes;
     std::map<std::string, int> viol_count;
+    std::map<std::string, long> atomic_by_kind;
     jarr                     samples, viols;
     auto                     progs = ll_programs();
     for (const char* kind : LL_KINDS)
@@ -1112,7 +1113,10 @@ static int ll_main(const argmap& a)
                 judge_ll(kind, w, r, v, herr);
                 for (auto& s : r.trace)
                     if (std::strncmp(s.tag, "atomic.", 7) == 0)
+                    {
                         ++atomic_steps;
+                        ++atomic_by_kind[kind];
+                    }
                 classes.insert(fmt("%s|%zu|%d", kind, pi, r.preemptions));
                 if (!sampled && pi == 4 && r.preemptions == 2)
                 {
@@ -1134,7 +1138,7 @@ static int ll_main(const argmap& a)
                     herr_list.push_back(std::string(kind) + ": violation not reproducible: '" + tags_of(v) + "' vs '" + tags_of(v2) + "'");
                 else
                     for (auto& x : v)
-                        if (viol_count[x.tag]++ < 2)
+                        if (viol_count[x.tag]++ < 4)
                             viols.raw(jobj()
                                           .str("tag", x.tag)
                                           .str("detail", x.detail + " | program " + ll_prog_names(p) + " | schedule " + sched::format_schedule(r))
@@ -1156,8 +1160,10 @@ static int ll_main(const argmap& a)
             if (st.divergences)
                 herr_list.push_back(std::string(kind) + ": " + st.stop_reason);
         }
-    if (atomic_steps == 0)
-        herr_list.push_back("vacuous: no scheduling point came from an atomic operation of the low-level allocators (shim not effective)");
+    for (const char* kind : LL_KINDS)
+        if (atomic_by_kind[kind] == 0)
+            herr_list.push_back(std::string("vacuous: no scheduling point came from an atomic operation of ") + kind
+                                + " (its library TU is not reached through the atomic shim, e.g. the calls were inlined)");
     while (!by_pre.empty() && by_pre.back() == 0)
         by_pre.pop_back();
     jarr bp, he;
@@ -1182,6 +1188,10 @@ static int ll_main(const argmap& a)
         .raw("executions_by_preemptions", bp.done())
         .num("executions_with_contended_mutex", 0)
         .num("decisions_at_atomic_operations", (long long)atomic_steps)
+        .num("decisions_at_atomic_operations_heap", atomic_by_kind[LL_KINDS[0]])
+        .num("decisions_at_atomic_operations_malloc", atomic_by_kind[LL_KINDS[1]])
+        .num("decisions_at_atomic_operations_new", atomic_by_kind[LL_KINDS[2]])
+        .num("decisions_at_atomic_operations_virtual", atomic_by_kind[LL_KINDS[3]])
         .raw("allocator_entries_by_member", "{}")
         .raw("violating_programs_by_tag", vc.done())
         .dbl("executions_per_s", double(executions) / (now_s() - t0 + 1e-9))
